@@ -83,10 +83,77 @@ func c20(c *Ctx) {
 				addrOK = true
 			}
 		}
+		// the filter compared as a whole with a filter value built from the decoded VAA's emitter
+		// (`sub.filters[i] == emitter`, emitter = filter{v.EmitterChain, v.EmitterAddress})
+		wholeFromDecoded := false
+		for _, f := range fs {
+			x, op, y, isCmp := cmpOf(f)
+			if !isCmp || op != token.EQL {
+				continue
+			}
+			for _, pr := range [][2]ssa.Value{{x, y}, {y, x}} {
+				if !strings.HasPrefix(facts.Term(pr[0]), sub+".filters[") {
+					continue
+				}
+				ld, isLd := strip(pr[1]).(*ssa.UnOp)
+				if !isLd || ld.Op != token.MUL {
+					continue
+				}
+				em, isAl := ld.X.(*ssa.Alloc)
+				if !isAl || em.Referrers() == nil {
+					continue
+				}
+				// every store into the compared value sets chainId/emitterAddr from one decoded VAA
+				okAll, nst := true, 0
+				var src ssa.Value
+				for _, r := range *em.Referrers() {
+					fa, isFA := r.(*ssa.FieldAddr)
+					if !isFA || fa.Referrers() == nil {
+						if st, isSt := r.(*ssa.Store); isSt && st.Addr == ssa.Value(em) {
+							okAll = false // whole-struct assignment from somewhere else
+						}
+						continue
+					}
+					for _, rr := range *fa.Referrers() {
+						st, isSt := rr.(*ssa.Store)
+						if !isSt || st.Addr != ssa.Value(fa) {
+							continue
+						}
+						nst++
+						base, fld := fieldLoad(st.Val)
+						wantF := map[string]string{"chainId": "EmitterChain", "emitterAddr": "EmitterAddress"}[fieldOfAddr(fa).Name()]
+						if fld == nil || fld.Name() != wantF {
+							okAll = false
+							continue
+						}
+						if src == nil {
+							src = base
+						} else if facts.Term(src) != facts.Term(base) {
+							okAll = false
+						}
+					}
+				}
+				if okAll && nst >= 2 && src != nil {
+					good, nl := true, 0
+					for _, leaf := range valueLeaves(src) {
+						if isNilConst(leaf) {
+							continue
+						}
+						nl++
+						if facts.Term(leaf) != "N/vaa.Unmarshal(vaaBytes)#0" {
+							good = false
+						}
+					}
+					if good && nl > 0 {
+						chainOK, addrOK, wholeFromDecoded = true, true, true
+					}
+				}
+			}
+		}
 		match = chainOK && addrOK
 		// v comes from Unmarshal of the published bytes
 		vOK := true
-		if match {
+		if match && !wholeFromDecoded {
 			vOK = false
 			for _, f := range fs {
 				if f.Atom == "N/vaa.Unmarshal(vaaBytes)#1 == nil" {
